@@ -2,6 +2,7 @@
 # usage: tools/round2.sh <prop-id> <check-ids...> : confirm both round-2 mutations of <prop-id>, then run the checks against them
 id=$1; shift
 for n in 1 2; do
-  python3 /verif/tools/confirm_mut.py $id $n --tag r2- > /tmp/cm-$id-r2-$n.log 2>&1; echo "confirm $id r2-$n rc=$?"
-  echo "#### $id r2-mut$n"; LINES_MAX=8 /verif/tools/trymut.sh /tmp/mut/$id/_out/mut$n.diff "$@" 2>&1 | grep -v "^KNOWN" | cut -c1-260
+  timeout 900 python3 /verif/tools/confirm_mut.py $id $n --tag r2- > /tmp/cm-$id-r2-$n.log 2>&1; echo "confirm $id r2-$n rc=$?"
+  echo "#### $id r2-mut$n"; LINES_MAX=8 timeout 900 /verif/tools/trymut.sh /tmp/mut/$id/_out/mut$n.diff "$@" 2>&1 | grep -v "^KNOWN" | cut -c1-260
+  git -C /repo checkout -- . 2>/dev/null
 done
